@@ -15,6 +15,7 @@ import SlacProofs.OrderSafe
 import SlacModel.Validate
 import SlacModel.Scanner
 import SlacModel.Regex
+import SlacModel.DebugFmt
 open Slac Codec
 
 def ordStr : Ordering → String | .lt => "-1" | .eq => "0" | .gt => "1"
@@ -136,6 +137,11 @@ def runOpt (r : List String) : Option String := do
 
 def caseMap : Stdlib.CaseMap := ⟨Unicode.lowerStr, Unicode.upperStr⟩
 
+/-- the driver's builtin table: the generic registry, with `str` replaced by the Float-specific total version
+    (Rust `Debug` formatting of arrays needs the number's Debug form) -/
+def builtinFloat (o : Nat) (nm : String) : Option (Registry.F Float) :=
+  if nm == "str" then some (Registry.tot DebugFmt.strF) else Registry.builtin (N := Float) caseMap o nm
+
 def runCall (r : List String) : Option String :=
   match r with
   | off :: name :: n :: r => do
@@ -143,7 +149,7 @@ def runCall (r : List String) : Option String :=
     let o : Nat := if off == "0" then 0 else 1
     let nm := String.ofList (unhex name)
     if (nm == "sort" || nm == "max" || nm == "min") && !Order.safeB (Stdlib.smartVec args) then pure "unmodelled unsafe-order" else
-    match Registry.builtin (N := Float) caseMap o nm with
+    match builtinFloat o nm with
     | none => pure "unmodelled"
     | some f => match f args with
       | none => pure "unmodelled"
